@@ -4,7 +4,7 @@
     an arbitrary function: nothing is assumed of it, so a refusal can only be
     escaped through an *exhibited* collision. *)
 From Coq Require Import List NArith Bool Arith.
-From Atlas Require Import Base.Bytes Exec.ExecModel Exec.ExecProofs Exec.StoreModel Exec.StoreProofs.
+From Atlas Require Import Base.Bytes Exec.ExecModel Exec.ExecProofs Exec.RunModel Exec.PendingProofs Exec.StoreModel Exec.StoreProofs.
 Import ListNotations.
 
 Section C12.
@@ -94,6 +94,23 @@ Proof.
   - intros v Hv. exact (write_then_read_other hash t fs r ok t' fs' e v W Hv).
 Qed.
 
+(** (c) ReadRevisions (one row per version, the primary key) lists exactly the
+    stored rows, strictly ordered by version -- what [Executor.Pending] (M-PEND,
+    C11) assumes of its reader when it takes the last element as the latest revision. *)
+Theorem C12_store_lists_by_version :
+  forall (t : list (rev hash)) (fs : list bool),
+  NoDup (map (@r_version hash) t) ->
+  match fst (read_revisions_f hash t fs) with
+  | Some l => hd false fs = false /\ sorted_revs l /\ (forall y, In y l <-> In y t)
+  | None => hd false fs = true
+  end.
+Proof.
+  intros t fs Hnd. unfold read_revisions_f. rewrite (pop_hd_tl fs).
+  destruct (hd false fs); cbn [fst]; [reflexivity|].
+  split; [reflexivity|]. split; [exact (read_revisions_sorted hash t Hnd)|].
+  intros y. exact (read_revisions_In hash t y).
+Qed.
+
 (** 4. Reading the revision fails (a transient error of the SELECT): the run
     fails with that error, executes nothing, writes nothing, the table is
     unchanged -- and no following file runs, in both transaction modes. *)
@@ -173,6 +190,38 @@ Theorem C12_refuse_cli_apply :
    o <> CRun (SExec ODone) /\ o <> CPend PendingModel.PNoPending).
 Proof. exact (C12_refuse_cli_lemma hash hash_eqb HS hash_eqb_spec). Qed.
 
+(** 10. The whole command when only the tail was edited (or nothing), no fault:
+    `atlas migrate apply` executes exactly the new tail, leaves one complete
+    revision (Applied = Total = new statement count, no partial hashes), and
+    the next `atlas migrate apply` finds nothing to do and changes nothing --
+    for both transaction modes, every executor configuration and count argument. *)
+Theorem C12_tail_edit_cli_apply :
+  forall (txfile : bool) (c : PendingModel.cfg) (n : nat) (f : file) (r : rev hash) (old : list bytes),
+  f_ckpt f = false -> r_version r = f_version f -> r_applied r <> r_total r ->
+  recorded hash HS r old ->
+  firstn (r_applied r) (f_stmts f) = firstn (r_applied r) old ->
+  exists es r',
+    cli_apply hash hash_eqb HS txfile c n [f] [r] [] =
+      (CRun (SExec ODone), [r'], [], es, map (pair (f_version f)) (skipn (r_applied r) (f_stmts f))) /\
+    r_version r' = f_version f /\
+    r_applied r' = length (f_stmts f) /\ r_total r' = length (f_stmts f) /\ r_hashes r' = [] /\
+    cli_apply hash hash_eqb HS txfile c n [f] [r'] [] = (CPend PendingModel.PNoPending, [r'], [], [], []).
+Proof. exact (C12_tail_cli_lemma hash hash_eqb HS hash_eqb_spec). Qed.
+
+(** 11. Whatever fails in the storage layer or in the statements, for every
+    file (edited or not) and every table: the revision of the file stored
+    before [Execute] is still stored afterwards and its [Applied] did not
+    decrease -- it is never replaced by a fresh one -- and the statements
+    executed are a prefix of the part of the file after the recorded progress
+    (nothing before statement Applied+1 is ever run again). *)
+Theorem C12_progress_never_lost :
+  forall (f : file) (t : list (rev hash)) (fs : list bool) (r : rev hash),
+  tbl_get t (f_version f) = Some r ->
+  forall o t' fs' es, execute_st hash hash_eqb HS f t fs = (o, t', fs', es) ->
+  (exists r', tbl_get t' (f_version f) = Some r' /\ r_applied r <= r_applied r') /\
+  exists m, journal es = map (pair (f_version f)) (firstn m (skipn (r_applied r) (f_stmts f))).
+Proof. exact (C12_progress_lemma hash hash_eqb HS). Qed.
+
 End C12.
 
 Print Assumptions C12_refuse.
@@ -180,12 +229,15 @@ Print Assumptions C12_no_panic.
 Print Assumptions C12_tail_edit_resumes.
 Print Assumptions C12_store_read_exact.
 Print Assumptions C12_store_upsert_overwrites.
+Print Assumptions C12_store_lists_by_version.
 Print Assumptions C12_read_error_refuses.
 Print Assumptions C12_refuse_any_storage_fault.
 Print Assumptions C12_refuse_stops_apply.
 Print Assumptions C12_tail_edit_resumes_store.
 Print Assumptions C12_no_panic_store.
 Print Assumptions C12_refuse_cli_apply.
+Print Assumptions C12_tail_edit_cli_apply.
+Print Assumptions C12_progress_never_lost.
 
 (** Non-vacuity: a concrete table/file meeting the hypotheses of 1 and 3,
     with [HS] the identity on byte strings (a legitimate instance). *)
@@ -257,6 +309,30 @@ Example C12_refuse_cli_apply_nonvacuous :
     (CRun (SExec (OHistory 2)), [ex_rev], [], [EWrite ex_rev true; EWrite ex_rev true], []) /\
   fst (fst (fst (fst (cli_apply bytes bytes_eqb ex_HS true c 0 [ex_file_changed] [ex_rev] [false; false; true])))) = CRun SReadErr /\
   fst (fst (fst (fst (cli_apply bytes bytes_eqb ex_HS true c 0 [ex_file_tail] [ex_rev] [])))) = CRun (SExec ODone).
+Proof. vm_compute. auto. Qed.
+
+Example C12_tail_edit_cli_apply_nonvacuous :
+  let c := PendingModel.mkCfg PendingModel.Linear None true true in
+  let done := mkRev [49%N] 4 4 [] false 2%N in
+  r_applied ex_rev <> r_total ex_rev /\
+  snd (cli_apply bytes bytes_eqb ex_HS false c 0 [ex_file_tail] [ex_rev] []) = [([49%N], [68%N]); ([49%N], [69%N])] /\
+  snd (fst (fst (fst (cli_apply bytes bytes_eqb ex_HS false c 0 [ex_file_tail] [ex_rev] [])))) = [done] /\
+  cli_apply bytes bytes_eqb ex_HS false c 0 [ex_file_tail] [done] [] = (CPend PendingModel.PNoPending, [done], [], [], []).
+Proof. vm_compute. repeat split; auto; discriminate. Qed.
+
+(** a write fault after the first statement of the tail: one statement ran, Applied went from 2 to 2 (the
+    write of 3 failed) -- not back to 0; with the lax store of [C12_lax_lookup_refuted] the prefix is re-run *)
+Example C12_progress_never_lost_nonvacuous :
+  (let '(o, t', _, es) := execute_st bytes bytes_eqb ex_HS ex_file_tail [ex_rev] [false; false; false; true] in
+   (o, map (@r_applied bytes) t', journal es)) = (SExec OWriteErr, [2], [([49%N], [68%N])]) /\
+  (let '(o, t', _, es) := execute_st_lax bytes bytes_eqb ex_HS ex_file_tail [ex_rev] [true] in
+   (o, journal es)) = (SExec ODone, map (pair [49%N]) (f_stmts ex_file_tail)).
+Proof. vm_compute. auto. Qed.
+
+Example C12_store_lists_by_version_nonvacuous :
+  let a := mkRev [50%N] 1 1 [] false 2%N in
+  fst (read_revisions_f bytes [a; ex_rev] []) = Some [ex_rev; a] /\
+  fst (read_revisions_f bytes [a; ex_rev] [true]) = None.
 Proof. vm_compute. auto. Qed.
 
 (** Clause (a) is needed. With a store that reports a failing lookup as
